@@ -114,8 +114,19 @@ func (e *Env) ObsErr(err error) {
 	if err == nil {
 		e.ObsU64(0)
 	} else {
-		e.ObsStr(err.Error())
+		e.ObsStr(ErrText(err))
 	}
+}
+
+// ErrText is err.Error(), or a marker if the Error method itself panics (a typed nil pointer
+// returned as a non-nil error: the library's slip, not a reason for the harness to fall over).
+func ErrText(err error) (s string) {
+	defer func() {
+		if r := recover(); r != nil {
+			s = "<Error() panicked: " + PanicString(r) + ">"
+		}
+	}()
+	return err.Error()
 }
 
 // OpDone closes the observations of one op of the party's script.
